@@ -52,6 +52,22 @@ def _worker(args):
             except Exception:  # noqa
                 ch = []
             out.setdefault("leftover", []).append((len(kids), len(ch)))
+    # the implementation's own answer to every distinct query asked alone on a fresh manager (the property's reference point)
+    alone = {}
+    for (batch, _) in calls:
+        for (k, b, a) in batch:
+            t = common.cond_text((k, b, a), case["sig"])
+            if t in alone:
+                continue
+            try:
+                m1 = InferenceManager(common.build_bb(case), cfg[0], "z3", cfg[1] or "rc2", case["weakly"])
+                df = m1.inference(Queries(common.build_bb(dict(case, queries=[(k, b, a)]), "queries", "q").conditionals))
+                alone[t] = bool(df.at[0, "result"])
+            except AssertionError:
+                alone[t] = "REFUSE"
+            except Exception as e:  # noqa
+                alone[t] = "EXC:%s" % type(e).__name__
+    out["alone"] = alone
     return out
 
 
@@ -84,6 +100,46 @@ def run(tier, seed, broken_proof=False):
             jid = "%s@%s" % (c["id"], ops.cfg_name(cfg))
             jobs.append((dict(c, id=jid), cfg, calls))
             expect[jid] = (c, cfg, calls)
+    # sessions whose queries mention atoms the base never mentions (and need auxiliary variables of their own), over bases of defaults
+    # with many incomparable correction sets: whatever a query allocates must not disturb the later ones
+    from common import And, Not, Or, T, V
+    for si in range(count):
+        k = rng.randrange(3, 6)
+        base = [(j + 1, V(j) if rng.random() < 0.8 else Not(V(j)), T) for j in range(k)]
+        holds = lambda j: base[j][1]
+        viol = lambda j: Not(base[j][1]) if base[j][1][0] == "v" else base[j][1][1]
+        fresh = [k, k + 1, k + 2]
+        qs = []
+        for _ in range(rng.randrange(5, 8)):
+            nf = rng.randrange(1, 4)
+            fl = [V(x) if rng.random() < 0.5 else Not(V(x)) for x in rng.sample(fresh, nf)]
+            ante = fl[0]
+            for l in fl[1:]:
+                ante = And(ante, l)
+            js = rng.sample(range(k), min(k, 3))
+            r = rng.random()
+            if r < 0.4:
+                ante = And(ante, viol(js[0]))
+            else:
+                alt1 = And(And(holds(js[0]), viol(js[1])), viol(js[-1]))
+                alt2 = And(viol(js[-1]), viol(js[0])) if r < 0.7 else And(viol(js[1]), Not(fl[0]) if nf > 1 else viol(js[0]))
+                ante = And(ante, Or(alt1, alt2))
+            qs.append((holds(rng.choice(js)) if rng.random() < 0.7 else viol(rng.choice(js)), ante))
+        c = make_case("fa%d" % si, k + 3, base, [(i + 1, b, a) for i, (b, a) in enumerate(qs)], False)
+        cfg = [("system-w", "rc2"), ("lex_inf", "rc2"), ("system-w", "rc2"), ("system-w", "z3"), ("system-w", "rc2"), ("c-inference", "rc2")][si % 6]
+        calls = []
+        order = list(qs)
+        rng.shuffle(order)
+        pos = 0
+        while pos < len(order):
+            sz = rng.randrange(1, 4)
+            batch = order[pos:pos + sz]
+            pos += sz
+            keys = rng.sample(range(0, 40), len(batch))
+            calls.append(([(keys[j], q[0], q[1]) for j, q in enumerate(batch)], False))
+        jid = "%s@%s" % (c["id"], ops.cfg_name(cfg))
+        jobs.append((dict(c, id=jid), cfg, calls))
+        expect[jid] = (c, cfg, calls)
     # model answers: every distinct query asked alone on a fresh model
     mcases = []
     for jid, (c, cfg, calls) in expect.items():
@@ -98,6 +154,7 @@ def run(tier, seed, broken_proof=False):
         for out in ex.map(_worker, jobs):
             ires[out["id"]] = out
     cinf_seen = {}
+    corr, corr_seen = [], set()
     for jid, (c, cfg, calls) in expect.items():
         im = ires[jid]
         name = ops.cfg_name(cfg)
@@ -117,8 +174,14 @@ def run(tier, seed, broken_proof=False):
                 strata["duplicate-texts"] += 1
             exp_rows = []
             for (k, b, a) in batch:
-                ans = modelrows[qi][cfg[0]] if cfg[0] != "c-inference" else None
-                exp_rows.append((k, cond_text((k, b, a), c["sig"]), ans))
+                t_ = cond_text((k, b, a), c["sig"])
+                ans = im["alone"].get(t_)                        # the implementation's answer when asked alone
+                mans = modelrows[qi][cfg[0]] if cfg[0] != "c-inference" else None
+                if mans is not None and isinstance(ans, bool) and ans != mans and (jid, t_) not in corr_seen:
+                    corr_seen.add((jid, t_))
+                    corr.append({"kind": "correspondence", "config": name, "query": t_, "history": desc, "model_answer": mans, "impl_answer_alone": ans, "found_by": "none",
+                                 "theorem_or_observable": "model answer != implementation answer for a query asked alone (C13's theorems about the manager model transfer to the code only through this agreement)"})
+                exp_rows.append((k, t_, ans if isinstance(ans, bool) else None))
                 qi += 1
             evals += len(batch)
             nontriv.add((jid, ci_))
@@ -144,6 +207,8 @@ def run(tier, seed, broken_proof=False):
                                    "theorem_or_observable": "worker processes left behind after a parallel call"})
         if len(samples) < 2 and len(calls) >= 3:
             samples.append(dict(desc, tables=im["tables"]))
+    if not violations:
+        violations += corr[:3]      # only the correspondence is broken: reported, labelled as such
     uniq, seen = [], set()
     for v in violations:
         k = (v["kind"], v.get("config"), v.get("parallel"), v.get("call", 0) > 0)
